@@ -23,6 +23,8 @@ import time
 NONE, FALSE, TRUE, MISSING = -1, 0, 1, -2
 STACK_DEPTH = 4
 TID_BASE = 200
+EMPTY = -3            # an empty container literal
+OBJ_BASE, OBJ_SITES, OBJ_THREADS = 500, 2, 3     # object tokens: OBJ_BASE + 16 * allocation site + thread index
 
 
 class Unsupported(Exception):
@@ -200,6 +202,39 @@ class Compiler:
     self.locs = {}              # loc -> initial value
     self.body_hooks = []
     self.thread_local = set()
+    self.nsites = 0
+
+  # ---------------------------------------------------------------- heap objects (instances created by the code itself)
+  def obj_tokens(self):
+    return [OBJ_BASE + 16 * n + t for n in range(OBJ_SITES) for t in range(OBJ_THREADS)]
+
+  def obj_class(self, node, env, mod):
+    """Class of the object a local name holds: recorded at its assignment, else None."""
+    if isinstance(node, ast.Name):
+      return env.get('$types', {}).get(node.id)
+    return None
+
+  def field_access(self, cls, attr, objexpr, lineno, store=None):
+    """Load (store is None) or store field `attr` of the object whose token `objexpr` evaluates to: the object may
+    have been allocated by any thread, so the access dispatches over every possible token; the cells are shared."""
+    out = self.tmp() if store is None else None
+    if out is not None:
+      self.emit('store', ('tmp', out), ('const', MISSING), lineno)
+    ends = []
+    for tok in self.obj_tokens():
+      br = self.emit('br', ('eq', objexpr, ('const', tok)), None, None, lineno)
+      self.ops[br][2] = self.here()
+      loc = ('heap', cls, f'{attr}@{tok}')
+      self.locs.setdefault(loc, MISSING)
+      if store is None:
+        self.emit('load', out, loc, lineno)
+      else:
+        self.emit('store', loc, store, lineno)
+      ends.append(self.emit('jmp', None, lineno))
+      self.ops[br][3] = self.here()
+    for j in ends:
+      self.ops[j][1] = self.here()
+    return ('tmp', out) if out is not None else None
 
   # ---------------------------------------------------------------- helpers
   def tmp(self):
@@ -271,6 +306,11 @@ class Compiler:
       if node.id in mod.classes or node.id in mod.funcs:
         return ('const', NONE)                 # a class / function object: immutable, carries no state of interest
       raise Unsupported(f'name {node.id}')
+    if isinstance(node, (ast.Dict, ast.List)) and not (node.keys if isinstance(node, ast.Dict) else node.elts):
+      return ('const', EMPTY)
+    if isinstance(node, ast.Attribute) and isinstance(node.value, ast.Name) and node.value.id in env and \
+        env[node.value.id][0] != 'global' and self.obj_class(node.value, env, mod):
+      return self.field_access(self.obj_class(node.value, env, mod), node.attr, env[node.value.id], node.lineno)
     if isinstance(node, ast.Attribute):
       base = node.value
       if isinstance(base, ast.Name) and base.id in env and env[base.id][0] == 'global':
@@ -409,6 +449,29 @@ class Compiler:
     fname = ast.unparse(f)
     if fname in ('threading.get_ident', 'get_ident') and not node.args:
       return ('tid',)
+    if isinstance(f, ast.Name) and f.id in mod.classes and f.id not in PURE_CALLS and not node.args and not node.keywords and \
+        mod.method(f.id, '__init__') is not None and \
+        any(isinstance(n, ast.FunctionDef) and not n.name.startswith('__') for n in mod.classes[f.id].body):
+      # a fresh instance: its token is unique per allocation site and thread, its fields live in shared cells
+      if self.nsites >= OBJ_SITES:
+        raise Unsupported('more object allocation sites than the heap model provides')
+      tok = ('add', ('const', OBJ_BASE + 16 * self.nsites - TID_BASE), ('tid',))
+      self.nsites += 1
+      t = self.tmp()
+      self.emit('store', ('tmp', t), tok, node.lineno)
+      init = mod.method(f.id, '__init__')
+      ienv_types = {'self': f.id}
+      self.inline(init, [('tmp', t)], {}, mod, node.lineno, types=ienv_types)
+      return ('objref', f.id, ('tmp', t))
+    if isinstance(f, ast.Attribute) and isinstance(f.value, ast.Name) and f.value.id in env and env[f.value.id][0] != 'global':
+      cls = self.obj_class(f.value, env, mod)
+      if cls is None:
+        owners = [c for c in mod.classes if mod.method(c, f.attr) is not None]
+        cls = owners[0] if len(owners) == 1 else None       # the only class of the module with such a method
+      if cls is not None and mod.method(cls, f.attr) is not None:
+        args = [self.expr(a, env, mod) for a in node.args]
+        kwargs = {k.arg: self.expr(k.value, env, mod) for k in node.keywords}
+        return self.inline(mod.method(cls, f.attr), [env[f.value.id]] + args, kwargs, mod, node.lineno, types={'self': cls})
     if fname == 'id' and len(node.args) == 1:
       return self.expr(node.args[0], env, mod)          # objects are their identity tokens
     if isinstance(f, ast.Attribute) and isinstance(f.value, ast.Name) and f.value.id in env and \
@@ -467,8 +530,10 @@ class Compiler:
       return ('const', NONE)
     raise Unsupported('call ' + fname)
 
-  def inline(self, fn, args, kwargs, mod, lineno):
+  def inline(self, fn, args, kwargs, mod, lineno, types=None):
     env = {}
+    if types:
+      env['$types'] = dict(types)
     params = [a.arg for a in fn.args.posonlyargs + fn.args.args + fn.args.kwonlyargs]
     for p, a in zip(params, args):
       env[p] = a
@@ -538,6 +603,17 @@ class Compiler:
         return
       self.expr(v, env, mod)
       return
+    if isinstance(st, ast.Assign) and len(st.targets) > 1:
+      # a = b[k] = value: evaluate once, assign left to right
+      val = self.expr(st.value, env, mod)
+      holder = '$chain%d' % st.lineno
+      cls = val[1] if val[0] == 'objref' else None
+      env[holder] = val[2] if val[0] == 'objref' else val
+      if cls:
+        env.setdefault('$types', {})[holder] = cls
+      for tgt in st.targets:
+        self.stmt(ast.copy_location(ast.Assign(targets=[tgt], value=ast.Name(id=holder, ctx=ast.Load()), lineno=st.lineno), st), env, mod)
+      return
     if isinstance(st, (ast.Assign, ast.AnnAssign, ast.AugAssign)):
       tgt = st.targets[0] if isinstance(st, ast.Assign) else st.target
       if isinstance(st, ast.AugAssign):
@@ -546,7 +622,15 @@ class Compiler:
         val = ('add', self.expr(tgt, env, mod), self.expr(st.value, env, mod))   # read ... then write: two steps
       else:
         val = self.expr(st.value, env, mod)
+      vcls = None
+      if val[0] == 'objref':
+        vcls, val = val[1], val[2]
+      elif isinstance(st.value, ast.Name):
+        vcls = env.get('$types', {}).get(st.value.id)
       if isinstance(tgt, ast.Name):
+        types = env.setdefault('$types', {})
+        if vcls:
+          types[tgt.id] = vcls
         if tgt.id in mod.globals and mod.globals[tgt.id][0] == 'plain':
           self.emit('store', self.declare(mod, tgt.id), val, st.lineno)
         elif val[0] == 'global':
@@ -559,6 +643,10 @@ class Compiler:
             slot[tgt.id] = self.tmp()
           self.emit('store', ('tmp', slot[tgt.id]), val, st.lineno)
           env[tgt.id] = ('tmp', slot[tgt.id])
+        return
+      if isinstance(tgt, ast.Attribute) and isinstance(tgt.value, ast.Name) and tgt.value.id in env and \
+          env[tgt.value.id][0] != 'global' and self.obj_class(tgt.value, env, mod):
+        self.field_access(self.obj_class(tgt.value, env, mod), tgt.attr, env[tgt.value.id], st.lineno, store=val)
         return
       if isinstance(tgt, ast.Attribute):
         base = tgt.value
@@ -752,6 +840,25 @@ class System:
       return o[1][0] != 'tmp' and o[1] not in self.tl
     return False
 
+  def longest_visible_path(self, prog):
+    """Largest number of shared accesses on any control-flow path of the program (jumps only go forward): the number
+    of scheduler steps the thread can need.  (Counting every shared access in the text over-estimates wildly once
+    accesses are dispatched over keys / object tokens: one branch of many executes.)"""
+    n = len(prog)
+    best = [0] * (n + 1)
+    for pc in range(n - 1, -1, -1):
+      o = prog[pc]
+      if o[0] == 'br':
+        nxt = max(best[min(o[2], n)], best[min(o[3], n)])
+      elif o[0] == 'jmp':
+        nxt = best[min(o[1], n)]
+      elif o[0] in ('fail', 'ret'):
+        nxt = 0
+      else:
+        nxt = best[pc + 1]
+      best[pc] = nxt + (1 if self.visible(o) else 0)
+    return best[0]
+
   def bmc(self, K=None, timeout_ms=120000):
     import z3
     T = self.T
@@ -763,7 +870,7 @@ class System:
     priv_keys = [('pc',), ('err',), ('nev',)] + [('seq', j) for j in range(self.MAX_EV)] + [('tmp', t) for t in tmps] + \
         [('obs', n) for n in obs_names] + [('tl', l) for l in tl_locs]
     vis = [[pc for pc, o in enumerate(p) if self.visible(o)] for p in self.progs]
-    K = K or sum(len(v) for v in vis)
+    K = K or sum(self.longest_visible_path(p) for p in self.progs)
 
     def truth(v):
       return z3.And(v != 0, v != NONE)
@@ -792,6 +899,8 @@ class System:
         return ev(e[1], st)
       if k == 'tid':
         return st[('tid',)]
+      if k == 'objref':
+        return ev(e[2], st)
       if k == 'ite':
         return z3.If(truth(ev(e[1], st)), ev(e[2], st), ev(e[3], st))
       raise Unsupported(f'expression node {k}')
@@ -980,7 +1089,7 @@ def _static(e):
   k = e[0]
   if k == 'const':
     return e[1]
-  if k in ('tmp', 'entry', 'global', 'tid', 'ite'):
+  if k in ('tmp', 'entry', 'global', 'tid', 'ite', 'objref'):
     return None
   vals = [_static(x) for x in e[1:]]
   if any(v is None for v in vals):
